@@ -76,7 +76,7 @@ Theorem C01_ab_plan_roundtrip : forall optimize_fn data symbols modes cw s,
   bytes_ok data = true ->
   encode_data_internal optimize_fn data symbols None modes false false = Ok (cw, s) ->
   decode_data cw = Ok data.
-Proof. intros o d sy m cw s HP OK H. exact (proj2 (ab_plan_roundtrip o d sy m HP cw s OK H)). Qed.
+Proof. intros o d sy m cw s HP OK H. exact (proj2 (ab_plan_roundtrip o sy m d HP cw s OK H)). Qed.
 Print Assumptions C01_ab_plan_roundtrip.
 
 Theorem C01_ascii_base256_roundtrip : forall sorter data symbols cw s,
